@@ -1501,8 +1501,9 @@ Theorem compile16_total_flag : parser_recovers_builder_panics = true -> forall a
 Proof. intros Hr a. unfold compile16. rewrite Hr. apply compile16_total_proved. Qed.
 
 Theorem compile16_never_invalid_flag :
-  parser_checks_view_partition_key = true -> parser_checks_grant_matches = true -> forall a, compile16 a <> VInvalid.
-Proof. intros Hv Hg a. unfold compile16, go_checks. rewrite Hv, Hg. apply compile16_never_invalid_proved. Qed.
+  parser_checks_view_partition_key = true -> parser_checks_grant_matches = true -> parser_command_parameter_kinds_checked = true ->
+  forall a, compile16 a <> VInvalid.
+Proof. intros Hv Hg Hf a. unfold compile16, go_checks. rewrite Hv, Hg, Hf. apply compile16_never_invalid_proved. Qed.
 
 Theorem wf_chains_end_proved a : wf a = true -> forall p w, In_ws a p w ->
   (exists l, ws_anc a (fuelw a) (p_name p) (w_inh w) = Some l)
